@@ -595,6 +595,11 @@ impl SvgElement {
             ));
         }
         if surround.is_none() && inside.is_none() {
+            // `margin` only means something together with surround / inside; it is
+            // an svgdx attribute either way and doesn't belong in the output
+            if self.is_graphics_element() {
+                self.pop_attr("margin");
+            }
             return Ok(());
         }
 
